@@ -157,9 +157,9 @@ def byline_judge(scenario, agree, p, nlines):
     collect = p.__dict__.get("collect", False)
     ch = dict(p.choices)
     considered = [v for kk, v in RM.events(p) if kk == "_consider_line"]
-    wc = [(m, ln) for m, ln in considered if collect and ch.get(f"matched({m},{ln})", scenario in ("stops_a", "stops_b", "abort"))]
+    wc = [(m, f"limited[{m}]({ln})") for m, ln in considered if collect and ch.get(f"matched({m},{ln})", scenario in ("stops_a", "stops_b", "abort"))]
     gc = [v for k, kk, v in p.trace if k == "call" and kk == "collected"]
     if scenario != "abort":
         out.append(("collected", gc == wc, f"next_by_line(collect={collect}, {mode}) with {cfg}: lines appended to the members' results {gc}, documented {wc} "
-                    "(a member's result holds the lines that member matched, and none when the caller does not collect)"))
+                    "(a member's result holds the lines that member matched, each through that member's own collect() projection, and none when the caller does not collect)"))
     return out
